@@ -13,7 +13,7 @@
   * `raises` = the code raises (assertion, `None.attr`, IndexError, ValueError).  Slices are
     assumed well-formed (`open_start`/`open_end` within the spine); on others the model may answer
     `raises` where the code builds a node out of a text node's markup.
-  Tied exactly on the emitted step (harness/fitplan.py, op `replaceStep`).
+  Tied exactly on the emitted step (harness/rangeplan.py, op `replaceStep`).
 -/
 import PM.Basic
 import PM.Fragment
